@@ -28,9 +28,22 @@ func (p *RetryPolicy) CreateWrapper() (w Wrapper)
   modifies p.waitDuration
   ensures positive-wait: p.waitDuration > 0
 
+// C08: the breaker that is built runs with exactly the configured numbers (thresholds, window type and size,
+// minimum number of calls, half-open permits) and the configured durations (one minute where none is given)
+ghost var gCBPolicy int   // the policy object handed to circuitbreaker.New
+
 func (p *CircuitBreakerPolicy) CreateWrapper() (w Wrapper)
-  trusted
   flag allocates
+  flag frame=unchecked
+  requires p != nil
+  // domain of the breaker's own contracts (policyOK): the schema guarantees size >= 1; the upper bounds keep the
+  // uint32 percentage arithmetic exact
+  requires p.SlidingWindowSize >= 1 && p.SlidingWindowSize <= 42949672 && p.PermittedNumberOfCallsInHalfOpen >= 1 && p.PermittedNumberOfCallsInHalfOpen <= 42949672
+  modifies gCBPolicy, clock
+  ensures breaker-runs-with-the-configured-numbers: let q = ptr(gCBPolicy, "*circuitbreaker.Policy") in (gCBPolicy != 0 && q.FailureRateThreshold == p.FailureRateThreshold && q.SlowCallRateThreshold == p.SlowCallRateThreshold && q.SlidingWindowSize == p.SlidingWindowSize && q.PermittedNumberOfCallsInHalfOpen == p.PermittedNumberOfCallsInHalfOpen && q.MinimumNumberOfCalls == p.MinimumNumberOfCalls)
+  ensures window-type-as-configured: let q = ptr(gCBPolicy, "*circuitbreaker.Policy") in (q.SlidingWindowType == (upper(p.SlidingWindowType) == "TIME_BASED" ? circuitbreaker.TimeBased : circuitbreaker.CountBased))
+  ensures durations-as-configured-or-one-minute: let q = ptr(gCBPolicy, "*circuitbreaker.Policy") in ((p.WaitDurationInOpen == "" ==> q.WaitDurationInOpen == 60000000000) && (p.SlowCallDurationThreshold == "" ==> q.SlowCallDurationThreshold == 60000000000) && (p.WaitDurationInOpen != "" && durOK(p.WaitDurationInOpen) ==> q.WaitDurationInOpen == durOf(p.WaitDurationInOpen)) && (p.SlowCallDurationThreshold != "" && durOK(p.SlowCallDurationThreshold) ==> q.SlowCallDurationThreshold == durOf(p.SlowCallDurationThreshold)) && (p.MaxWaitDurationInHalfOpen != "" && durOK(p.MaxWaitDurationInHalfOpen) ==> q.MaxWaitDurationInHalfOpen == durOf(p.MaxWaitDurationInHalfOpen)) && (p.MaxWaitDurationInHalfOpen == "" ==> q.MaxWaitDurationInHalfOpen == 0))
+  ghost at call[1] New: gCBPolicy := ref(policy)
 
 func (p *RetryPolicy) Wrap(handler HandlerFunc) (wrapped HandlerFunc)
   requires p != nil
